@@ -26,7 +26,7 @@ MEM_HEADROOM = 3 * GIB           # address space the child may add on top of wha
 FILE_LIMIT = 512 << 20           # largest file the child may write (protects the scratch disk)
 DEFAULT_STEP_BUDGET = 3_000_000  # counted steps; the largest legitimate run of the sweep needs < 5 % of this
 
-COUNTERS = ("p2_visits", "p3_visits", "state_runs", "frames", "taint_pops", "space_adds")
+COUNTERS = ("p2_visits", "p3_visits", "state_runs", "frames", "taint_pops", "space_adds", "taint_dfs")
 
 
 def warm():
@@ -35,6 +35,9 @@ def warm():
     from lian.taint import taint_analysis  # noqa: F401
     if lianrun._state["snapshot"] is None:
         lianrun._state["snapshot"] = lianrun._module_snapshot()
+
+
+DFS_FACTOR = 20
 
 
 class _Budget(BaseException):
@@ -90,6 +93,36 @@ def _install_counters(box, step_budget, on_budget):
             bump("taint_pops")
             return collections.deque.popleft(self)
     ta.deque = CountingDeque
+
+    # every expansion of a node while a reported flow's path is reconstructed (depth-first search over the SFG)
+    class CountingGraph(object):
+        def __init__(self, g):
+            self._g = g
+
+        def successors(self, u):
+            # counted apart from "steps" (the step bounds of the sweeps were calibrated without it); a search that
+            # enumerates paths instead of nodes is aborted at DFS_FACTOR times the step budget of the run
+            box["taint_dfs"] += 1
+            if box["taint_dfs"] > DFS_FACTOR * step_budget:
+                on_budget()
+            return self._g.successors(u)
+
+        def __getattr__(self, name):
+            return getattr(self._g, name)
+
+    if hasattr(ta, "PathFinder") and hasattr(ta.PathFinder, "reconstruct_define_use_path"):
+        orig_rec = ta.PathFinder.reconstruct_define_use_path
+
+        def reconstruct_define_use_path(self, source, sink):
+            # PathFinder.sfg is a read-only view of its TaintAnalysis' graph: swap it there for the duration
+            owner = self.ta
+            g = owner.sfg
+            owner.sfg = CountingGraph(g)
+            try:
+                return orig_rec(self, source, sink)
+            finally:
+                owner.sfg = g
+        ta.PathFinder.reconstruct_define_use_path = reconstruct_define_use_path
 
     orig_afs = gs.P3GlobalSemanticAnalysis.analyze_frame_stack
 
